@@ -65,7 +65,9 @@ func main() {
 			fmt.Fprintf(os.Stderr, "Unexpected error: %v\n", err)
 			os.Exit(1)
 		}
-		if fi.Size() == 0 {
+		// a pipe reports a size of 0 even when data is waiting, so only an interactive terminal or an
+		// empty regular file counts as "no data"
+		if fi.Mode()&os.ModeCharDevice != 0 || (fi.Mode().IsRegular() && fi.Size() == 0) {
 			fmt.Fprintln(os.Stderr, "No data provided on stdin.  Use '-file' or pass data on stdin.")
 			os.Exit(1)
 		}
